@@ -51,6 +51,7 @@ def impl_solve_t(case):
         'passvecs': [[lib.fhex(x) for x in v] for v in m.__dict__['_passvecs']],
         'raised': m.__dict__['_raised'],
         'blocked': [[b[0], b[1], lib.fhex(float.fromhex(b[2]) if b[2].startswith(('0x', '-0x')) else float(b[2]))] for b in m.__dict__['_blocked']],
+        'warn_stored': m.__dict__.get('_warn_stored', []),
     }
 
 
